@@ -32,7 +32,7 @@ def check(run):
                 nres += resid_range(run, m)
         run.floor('ACC.pair', 'accumulators in binary.rs + reg.rs', nacc, 57)
         run.floor('RESID.range', 'residual recomputation loops', nres, 3)
-    if run.tier == 'thorough':
+    if True:    # the algebraic comparison takes a few seconds: part of the quick tier too
         import casrules
         run.rule('CAS.form', casrules.RULE)
         n = casrules.check_rolling(run, run.facts('base'), ('binary.rs', 'reg.rs'))
@@ -43,7 +43,7 @@ def check(run):
         '/ regression kernels has an add update and an exactly inverse remove update under the '
         'same pairwise null guard; the statistic is read between them; the three residual '
         'kernels recompute over start.unwrap_or(0)..=end with pairwise null skip. '
-        'Closed forms are compared with least squares in the thorough tier only; rounding is '
+        'Closed forms are compared with least squares by computer algebra (sympy as a normal-form comparator); rounding is '
         'not decided.',
         ASSUME, TRUSTED,
         'instances = (kernel, accumulator), (kernel, gate) and residual-loop sites')
